@@ -348,9 +348,7 @@ pub fn render_integer(
 	}
 
 	out.reserve(zp2 as usize);
-	if iv != 0 {
-		out.push_str(zero_prefix);
-	}
+	out.push_str(zero_prefix);
 	for _ in 0..zp2 {
 		out.push('0');
 	}
@@ -394,7 +392,8 @@ pub fn render_octal(
 		blank,
 		sign,
 		8,
-		if alt && iv != 0.0 { "0" } else { "" },
+		// No prefix for zero, it is "0" already
+		if alt && iv.floor() != 0.0 { "0" } else { "" },
 		true,
 		false,
 	);
